@@ -196,4 +196,12 @@ struct colvars_verif_access {
   static std::list<colvarbias_meta::hill>::iterator meta_new_hills_begin(colvarbias_meta *b) { return b->new_hills_begin; }
   static std::string const &meta_replica_id(colvarbias_meta *b) { return b->replica_id; }
   static long meta_state_step(colvarbias_meta *b) { return (long)b->state_file_step; }
+  // extended-Lagrangian coordinate (C17)
+  static double ext_x(colvar *c) { return c->x_ext.real_value; }
+  static double ext_v(colvar *c) { return c->v_ext.real_value; }
+  static double ext_mass(colvar *c) { return c->ext_mass; }
+  static double ext_k(colvar *c) { return c->ext_force_k; }
+  static double ext_ek(colvar *c) { return c->kinetic_energy; }
+  static double ext_ep(colvar *c) { return c->potential_energy; }
+  static double atoms_force(colvar *c) { return c->f.real_value; }   // what communicate_forces() multiplies the gradients by
 };
